@@ -6,7 +6,7 @@ VERIF = os.path.dirname(os.path.dirname(os.path.abspath(__file__)))
 DRIVER = os.path.join(VERIF, "lean", ".lake", "build", "bin", "driver")
 
 
-def run_harness(exe, args, timeout=120):
+def run_harness(exe, args, timeout=60):
     try:
         r = subprocess.run([exe] + [str(a) for a in args], capture_output=True, text=True, timeout=timeout)
         return r.returncode, r.stdout, r.stderr
@@ -14,8 +14,11 @@ def run_harness(exe, args, timeout=120):
         return -99, (e.stdout or b"").decode() if isinstance(e.stdout, bytes) else (e.stdout or ""), "timeout"
 
 
-def run_driver(text, timeout=120):
-    r = subprocess.run([DRIVER], input=text, capture_output=True, text=True, timeout=timeout)
+def run_driver(text, timeout=60):
+    try:
+        r = subprocess.run([DRIVER], input=text, capture_output=True, text=True, timeout=timeout)
+    except subprocess.TimeoutExpired:
+        return -99, "", "driver timeout"
     return r.returncode, r.stdout, r.stderr
 
 
